@@ -6,7 +6,8 @@ from vf.core import Part, Violation, call
 from vf.props import common
 
 PROPERTY = "C05"
-RULE = ("Hypothesis generates validated model DAG specs (all connectives, all value/sign combinations, atoms only / compounds "
+RULE = ("Parts 'shapes*': EXHAUSTIVE enumeration of every single threshold node (all values/signs, 1-2 children from a boolean "
+        "and an integer leaf with negative lower bound) alone and inside every connective. Other parts: Hypothesis generates validated model DAG specs (all connectives, all value/sign combinations, atoms only / compounds "
         "only / mixed children, boolean and integer leaves incl. negative ranges) x all in-bounds leaf assignments "
         "(enumerated up to the guard, else boundary/threshold-biased drawn points); both m.negate() and Not(m) are taken. "
         "Oracle: reference arithmetic value of the ORIGINAL built object vs. value of the negated object (reference "
@@ -99,8 +100,14 @@ def focus(draw, tier):
     return {"model": spec, "points": None, "via_not": draw(st.booleans())}
 
 
+def shapes(slice_i, n):
+    for spec in S.small_shapes(slice_i, n):
+        for via in (False, True):
+            yield {"model": spec, "points": None, "via_not": via}
+
+
 def parts(tier):
-    return [
+    return [Part("shapes%d" % i, enumerate_cases=(lambda t, i=i: shapes(i, 4)), check=check, time_quick=120.0) for i in range(4)] + [
         Part("thresholds", strategy=lambda t: focus(t), check=check, quick=(2, 400), thorough=(4, 3000)),
         Part("small", strategy=lambda t: strat(t, "small"), check=check, quick=(6, 350), thorough=(12, 2500)),
         Part("large", strategy=lambda t: strat(t, "large"), check=check, quick=(2, 250), thorough=(4, 1500)),
